@@ -408,63 +408,39 @@ pub(crate) fn validate_channelmodes<'a>(
     })
 }
 
-fn starts_single_wilcards<'a>(pattern: &'a str, text: &'a str) -> bool {
-    if pattern.len() <= text.len() {
-        pattern
-            .bytes()
-            .enumerate()
-            .all(|(i, c)| c == b'?' || c == text.as_bytes()[i])
-    } else {
-        false
-    }
-}
-
+// match text with wildcard pattern: '*' - any (also empty) sequence of characters,
+// '?' - exactly one character. It compares characters, not bytes.
 pub(crate) fn match_wildcard<'a>(pattern: &'a str, text: &'a str) -> bool {
-    let mut pat = pattern;
-    let mut t = text;
-    let mut asterisk = false;
-    while !pat.is_empty() {
-        let (newpat, m, cur_ast) = if let Some(i) = pat.find('*') {
-            (&pat[i + 1..], &pat[..i], true)
+    let pat: Vec<char> = pattern.chars().collect();
+    let txt: Vec<char> = text.chars().collect();
+    let mut pi = 0; // position in pattern
+    let mut ti = 0; // position in text
+    // position after last asterisk in pattern and position in text where
+    // rest of pattern after this asterisk is tried to match.
+    let mut after_ast: Option<usize> = None;
+    let mut ast_ti = 0;
+    while ti < txt.len() {
+        if pi < pat.len() && pat[pi] == '*' {
+            after_ast = Some(pi + 1);
+            ast_ti = ti;
+            pi += 1;
+        } else if pi < pat.len() && (pat[pi] == '?' || pat[pi] == txt[ti]) {
+            pi += 1;
+            ti += 1;
+        } else if let Some(ap) = after_ast {
+            // mismatch - last asterisk takes one character more.
+            ast_ti += 1;
+            ti = ast_ti;
+            pi = ap;
         } else {
-            (&pat[pat.len()..pat.len()], pat, false)
-        };
-
-        if !m.is_empty() {
-            if !asterisk {
-                // if first match
-                if !starts_single_wilcards(m, t) {
-                    return false;
-                }
-                t = &t[m.len()..];
-            } else if cur_ast || !newpat.is_empty() {
-                // after asterisk. only if some rest in pattern and
-                // if last current character is asterisk
-                let mut i = 0;
-                // find first single wildcards occurrence.
-                while i <= t.len() - m.len() && !starts_single_wilcards(m, &t[i..]) {
-                    i += 1;
-                }
-                if i <= t.len() - m.len() {
-                    // if found
-                    t = &t[i + m.len()..];
-                } else {
-                    return false;
-                }
-            } else {
-                // if last pattern is not asterisk
-                if !starts_single_wilcards(m, &t[t.len() - m.len()..]) {
-                    return false;
-                }
-                t = &t[t.len()..t.len()];
-            }
+            return false;
         }
-
-        asterisk = true;
-        pat = newpat;
     }
-    // if last character in pattern is '*' or text has been fully consumed
-    (!pattern.is_empty() && pattern.as_bytes()[pattern.len() - 1] == b'*') || t.is_empty()
+    // only asterisks can remain in pattern
+    while pi < pat.len() && pat[pi] == '*' {
+        pi += 1;
+    }
+    pi == pat.len()
 }
 
 // normalize source mask - for example '*' to '*!*@*'
